@@ -372,6 +372,19 @@ def m_generic_as_value(ex, callee, args):
     raise Unsupported('as_value() on %r' % (v,))
 
 
+@model(r'^<dyn (value::)?Object as (value::)?Object>::len$|^<.* as (value::)?Object>::len$')
+def m_obj_len(ex, callee, args):
+    t = deref_all(args[0])
+    if isinstance(t, SymDoc):
+        return BV(t.length(), 'usize')
+    if isinstance(t, ConcDoc):
+        return mk_int(len(t.fields), 'usize') if hasattr(t, 'fields') else mk_int(len(t.items), 'usize')
+    f = ex.prog.resolve_call(callee)
+    if f is not None:
+        return ex.call_mir(f, args)
+    raise Unsupported('Object::len on %r' % (t,))
+
+
 @model(r'^<dyn (value::)?Array as (value::)?Array>::iter$')
 def m_arr_iter(ex, callee, args):
     a = deref_all(args[0])
